@@ -26,6 +26,7 @@ const cborPath = "github.com/fxamacker/cbor/v2"
 type Prog struct {
 	Repo         string
 	kindsBusy    map[*ssa.Function]bool
+	casePathMemo map[*ssa.Function][]*Path
 	Fset         *token.FileSet
 	Pkg          *packages.Package
 	SSA          *ssa.Program
@@ -119,9 +120,20 @@ func loadProg(repo string, overlay map[string][]byte, env []string) (*Prog, erro
 			}
 		}
 	}
+	// instantiations of the package's generic functions (their Pkg is nil)
+	for f := range ssautil.AllFunctions(prog) {
+		if o := f.Origin(); o != nil && o != f && o.Pkg == P.SPkg && f.Blocks != nil {
+			add(f)
+		}
+	}
 	sort.Slice(P.Funcs, func(i, j int) bool { return P.Funcs[i].String() < P.Funcs[j].String() })
 	for _, f := range P.Funcs {
 		P.byName[f.String()] = f
+		// generic instantiations carry type arguments with package paths: also
+		// register them under the name a printed call term resolves to
+		if k := unshortFn(shortFn(f)); P.byName[k] == nil {
+			P.byName[k] = f
+		}
 	}
 	P.terms = newTermEngine(P)
 	P.effects = newEffectEngine(P)
@@ -243,7 +255,15 @@ func (P *Prog) mustConst(name string) int64 {
 
 // inPkg reports whether fn is a function with a body defined in the package.
 func (P *Prog) inPkg(fn *ssa.Function) bool {
-	return fn != nil && fn.Pkg == P.SPkg && fn.Blocks != nil
+	if fn == nil || fn.Blocks == nil {
+		return false
+	}
+	if fn.Pkg == P.SPkg {
+		return true
+	}
+	// an instantiation of one of the package's generic functions
+	o := fn.Origin()
+	return o != nil && o != fn && o.Pkg == P.SPkg
 }
 
 // funcDecl finds the syntax of a function (for mutators).
